@@ -22,6 +22,9 @@ for f in sorted(glob.glob(os.path.join(res_dir, 'C*_*m[0-9].json'))):
     elif m.startswith('r6'):
         src = '/tmp/s6_%s/mutants' % pid
         m = m[2:]
+    elif m.startswith('r7'):
+        src = '/tmp/s7_%s/mutants' % pid
+        m = m[2:]
     else:
         src = '/tmp/seed_%s/mutants' % pid
     r = json.load(open(f))
@@ -42,7 +45,7 @@ for f in sorted(glob.glob(os.path.join(res_dir, 'C*_*m[0-9].json'))):
         shutil.copy(demo, os.path.join(dst, 'demo.py'))
     out = {
         'id': base, 'property': pid, 'summary': meta.get('summary'), 'needs_to_manifest': meta.get('needs'), 'files': meta.get('files'),
-        'origin': 'written by an independent sub-agent that saw only the text of the property and a scratch worktree of /repo' + (' (round 2: also the one-line summaries of the round-1 changes, to avoid repeating them)' if base.split('_')[1].startswith('r2') else '') + (' (round 3: also the one-line summaries of the round-1 and round-2 changes; written against the tree repaired up to D58)' if base.split('_')[1].startswith('r3') else '') + (' (round 4: also the one-line summaries of rounds 1-3; written against the tree repaired up to D59)' if base.split('_')[1].startswith('r4') else '') + (' (round 5: also the one-line summaries of rounds 1-4; written against the tree repaired up to D77)' if base.split('_')[1].startswith('r5') else '') + (' (round 6: also the one-line summaries of rounds 1-5; written against the tree repaired up to D115)' if base.split('_')[1].startswith('r6') else ''),
+        'origin': 'written by an independent sub-agent that saw only the text of the property and a scratch worktree of /repo' + (' (round 2: also the one-line summaries of the round-1 changes, to avoid repeating them)' if base.split('_')[1].startswith('r2') else '') + (' (round 3: also the one-line summaries of the round-1 and round-2 changes; written against the tree repaired up to D58)' if base.split('_')[1].startswith('r3') else '') + (' (round 4: also the one-line summaries of rounds 1-3; written against the tree repaired up to D59)' if base.split('_')[1].startswith('r4') else '') + (' (round 5: also the one-line summaries of rounds 1-4; written against the tree repaired up to D77)' if base.split('_')[1].startswith('r5') else '') + (' (round 6: also the one-line summaries of rounds 1-5; written against the tree repaired up to D115)' if base.split('_')[1].startswith('r6') else '') + (' (round 7: also the one-line summaries of rounds 1-6 and a note that sequences looking at a second object / a later step had been the most productive; written against the tree repaired up to D119)' if base.split('_')[1].startswith('r7') else ''),
         'confirmed': {'repo_suite_still_86_of_86': r.get('baseline_ok'), 'demo_exit_on_patched_tree': r.get('demo_patched_rc'), 'demo_exit_on_clean_tree': r.get('demo_clean_rc'),
                       'how': 'tools/try_mutant.py <patch> --props %s --baseline --demo <demo> (scratch worktree of /repo HEAD, FXPVERIF_REPO)' % pid},
         'caught_by_quick_checks': r.get('caught_by'), 'check_results': r.get('results'),
